@@ -188,7 +188,10 @@ func Verif_C07_later_conservation() {
 	later := verifUnix(c07Start + pr[1])
 	verifSetParams(k, ctx)
 	sender, _ := verifC07Sender(ctx, k)
-	alone := sender.LockedCoins(later).AmountOf(vDenom) // what the sender alone would have locked at the later instant
+	// what the sender alone would still have vesting at the later instant. Vesting coins, not bank-locked coins: with delegated
+	// vesting the bank's LockedCoins is max(vesting - delegated, 0), which is not additive across the two accounts (the delegated part
+	// stays with the sender); without delegation the two notions coincide.
+	alone := sender.GetVestingCoins(later).AmountOf(vDenom)
 	lockedNow := sender.LockedCoins(ctx.BlockTime()).AmountOf(vDenom)
 	U := verif_int_range("U", "1", "1e30")
 	verif_assume(U.LTE(lockedNow))
@@ -200,7 +203,7 @@ func Verif_C07_later_conservation() {
 	}
 	s2 := W.auth.GetAccount(ctx, verifAddr(c07From)).(*vestingtypes.ContinuousVestingAccount)
 	r := W.auth.GetAccount(ctx, verifAddr(c07To)).(*vestingtypes.ContinuousVestingAccount)
-	together := s2.LockedCoins(later).AmountOf(vDenom).Add(r.LockedCoins(later).AmountOf(vDenom))
-	verif_assert(together.Sub(alone).Abs().LTE(sdk.NewInt(2)), "at a later time the two accounts together have locked what the sender alone would have had (within 2 base units)")
+	together := s2.GetVestingCoins(later).AmountOf(vDenom).Add(r.GetVestingCoins(later).AmountOf(vDenom))
+	verif_assert(together.Sub(alone).Abs().LTE(sdk.NewInt(2)), "at a later time the two accounts together have still vesting what the sender alone would have had (within 2 base units)")
 	verif_reach("later instant checked")
 }
